@@ -49,6 +49,9 @@ func init() {
 		Variant{ID: "c19-r6-mysql-sep", Prop: "C19", File: "replication/mysql56_gtid.go",
 			Old: "return fmt.Sprintf(\"%s:%d\", m.Server, m.Sequence)", New: "return fmt.Sprintf(\"%s-%d\", m.Server, m.Sequence)",
 			Expect: "C19-R6 separator@Mysql56GTID"},
+		Variant{ID: "c19-r7-add-stops-at-higher-domain", Prop: "C19", File: "replication/mariadb_gtid.go",
+			Old: "\tfor i, gtid := range gtidSet {\n\t\tif mdbOther.Domain == gtid.Domain {\n\t\t\tif mdbOther.Sequence > gtid.Sequence {", New: "\tfor i, gtid := range gtidSet {\n\t\tif gtid.Domain > mdbOther.Domain {\n\t\t\tbreak\n\t\t}\n\t\tif mdbOther.Domain == gtid.Domain {\n\t\t\tif mdbOther.Sequence > gtid.Sequence {",
+			Expect: "C19-R7 full-scan@AddGTID"},
 		Variant{ID: "c19-r7-contains-forward-walk", Prop: "C19", File: "replication/mariadb_gtid.go",
 			Old:    "\tfor _, gtid := range mdbOther {\n\t\tif !gtidSet.ContainsGTID(gtid) {\n\t\t\treturn false\n\t\t}\n\t}\n\treturn true",
 			New:    "\ti := 0\n\tfor _, gtid := range mdbOther {\n\t\tfor i < len(gtidSet) && gtidSet[i].Domain != gtid.Domain {\n\t\t\ti++\n\t\t}\n\t\tif i == len(gtidSet) || gtidSet[i].Sequence < gtid.Sequence {\n\t\t\treturn false\n\t\t}\n\t}\n\treturn true",
@@ -708,6 +711,45 @@ func c19R7(a *A) {
 					}
 					if !indexes {
 						continue
+					}
+					// no way out of the walk decided by the ORDER of domain ids: the set is not sorted by domain
+					isDomain := func(v ssa.Value) bool {
+						switch x := stripW(v).(type) {
+						case *ssa.Field:
+							return fieldNameV(x) == "Domain"
+						case *ssa.UnOp:
+							if fa, ok := x.X.(*ssa.FieldAddr); ok && x.Op == token.MUL {
+								return fieldName(fa) == "Domain"
+							}
+						}
+						return false
+					}
+					for _, lb := range f.Blocks {
+						if !b.Dominates(lb) || !(lb == b || reachesAvoiding(lb, b, nil, nil)) {
+							continue
+						}
+						iff, ok := lastInstr(lb).(*ssa.If)
+						if !ok {
+							continue
+						}
+						bo, ok := iff.Cond.(*ssa.BinOp)
+						if !ok {
+							continue
+						}
+						switch bo.Op {
+						case token.LSS, token.GTR, token.LEQ, token.GEQ:
+						default:
+							continue
+						}
+						if !isDomain(bo.X) && !isDomain(bo.Y) {
+							continue
+						}
+						for _, sc := range lb.Succs {
+							if !(b.Dominates(sc) && (sc == b || reachesAvoiding(sc, b, nil, nil))) {
+								bad = append(bad, fmt.Sprintf("the walk over the set in %s stops early on an order comparison of domain ids", f.Name()))
+								pos = w.posOf(iff)
+							}
+						}
 					}
 					for i, p := range b.Preds {
 						if b.Dominates(p) {
